@@ -3026,6 +3026,9 @@ class MNOT(M_Pattern_One):
 
             return ASTS_LEAF__ALL
 
+        elif not isinstance(p, type):  # only a bare type matches EVERY node of its leaf types, any other pattern may reject some of them so the complement of its types would exclude nodes which do match
+            return ASTS_LEAF__ALL
+
         elif len(leaf_asts) >= _LEN_ASTS_LEAF__ALL:  # >= because maybe some extra node types got in there from the future
             return _EMPTY_SET
 
